@@ -5,7 +5,7 @@ from fontgen import gdl, gfont
 
 CLS = [[1, 2], [2, 3], [4, 5], [6]]
 ADV = [0, 500, 600, 450, 700, 300, 0]
-GATTR = [0, 0, 1, 0, 0, 1, 0]
+GATTR = [0, 0, 1, -1, 0, 1, 0]        # signed: glyph c carries -1 (GAttrF in spec/GdlRefMC.tla)
 
 
 def gen_cases(ck, tier, seed, tmp, want_fired=True):
